@@ -352,10 +352,14 @@ class Ctx:
 
 
 def load_known(prop):
-    if not KNOWN.exists():
-        return []
-    data = json.loads(KNOWN.read_text())
-    return [k for k in data.get("findings", []) if k["property"] == prop]
+    """Committed known findings: known_findings.json plus the per-property file
+    known_findings.d/<prop>.json (same format); never written at run time."""
+    out = []
+    for f in (KNOWN, VERIF / "known_findings.d" / ("%s.json" % prop)):
+        if f.exists():
+            data = json.loads(f.read_text())
+            out += [k for k in data.get("findings", []) if k["property"] == prop]
+    return out
 
 
 def known_match(finding, tags):
